@@ -351,3 +351,70 @@ func KindLiteralSweep(run *ev.Run, backend string) {
 		in.Close()
 	}
 }
+
+// ErrorPathTwins: operations that fail in the middle of a scan - a consumer returning its own error at each
+// position, an index built over a value too long for any index key, an update function failing half-way - must
+// end the same way on every backend: an error (never a panic), no transaction or cursor left open, nothing changed.
+func ErrorPathTwins(run *ev.Run, backends []string, tag string) {
+	type outcome struct{ class, state string }
+	results := map[string]map[string]outcome{}
+	long := strings.Repeat("L", 70000)
+	for _, backend := range backends {
+		results[backend] = map[string]outcome{}
+		for _, indexed := range []bool{false, true} {
+			in := drv.MustOpen(backend)
+			drv.Exec(in, m.Op{K: "createColl", Coll: "a"})
+			if indexed {
+				drv.Exec(in, m.Op{K: "createIndex", Coll: "a", Field: "x"})
+			}
+			drv.Exec(in, m.Op{K: "insert", Coll: "a", Docs: DefaultDataset()})
+			drv.Exec(in, m.Op{K: "insert", Coll: "a", Docs: []m.Doc{{"_id": ID(900), "big": long}}})
+			n := len(DefaultDataset()) + 1
+			ops := map[string]m.Op{"createIndex-over-too-long-value": {K: "createIndex", Coll: "a", Field: "big"},
+				"updateFunc-invalid-result-midway": {K: "updateFunc", Q: &m.Q{Coll: "a"}, Upd: &m.Updater{Set: map[string]interface{}{"w": int64(1)}, Style: "copy", BadFor: ID(5)}}}
+			for _, q := range []*m.Q{{Coll: "a"}, {Coll: "a", Crit: m.Leaf("gte", "x", int64(0))}, {Coll: "a", Sort: []m.SortOpt{{Field: "x", Dir: 1}}}, {Coll: "a", Sort: []m.SortOpt{{Field: "y", Dir: -1}}}} {
+				for _, stop := range []int{1, 2, n - 1, n} {
+					ops[fmt.Sprintf("iterateDocs-consumer-error-at-%d/%s", stop, opSkel(m.Op{K: "iterateDocs", Q: q}))] = m.Op{K: "iterateDocs", Q: q, Stop: stop}
+				}
+			}
+			for name, o := range ops {
+				before := drv.CanonState(in.Dump())
+				r := drv.Exec(in, o)
+				run.Add("evaluations", 1)
+				key := fmt.Sprintf("%s/indexed=%v", name, indexed)
+				run.Distinct("error_paths", key)
+				class := "ok"
+				switch {
+				case r.Panic != nil:
+					class = "panic"
+				case r.Err != nil:
+					class = "error"
+				}
+				if r.Leak != "" {
+					class += "+leak"
+				}
+				oc := outcome{class: class}
+				if drv.CanonState(in.Dump()) != before {
+					oc.state = "changed"
+				}
+				results[backend][key] = oc
+				if r.Panic != nil || r.Leak != "" || oc.state != "" {
+					run.Violation(fmt.Sprintf("%s|errorpath|%s|%s", tag, backend, name), fmt.Sprintf("[%s] %s (index on x: %v): %s; state %s", backend, name, indexed, r, map[bool]string{true: "changed", false: "unchanged"}[oc.state != ""]),
+						map[string]interface{}{"engine": "hostile", "op": o, "backend": backend, "indexed": indexed})
+					in.V.ForgetLeaks()
+					if r.Panic != nil {
+						break
+					}
+				}
+			}
+			in.Close()
+		}
+	}
+	for key, a := range results[backends[0]] {
+		for _, b := range backends[1:] {
+			if ob, ok := results[b][key]; ok && ob != a {
+				run.Violation(fmt.Sprintf("%s|errorpath-differs|%s", tag, key), fmt.Sprintf("%s ends as %q on %s and as %q on %s", key, a.class+a.state, backends[0], ob.class+ob.state, b), nil)
+			}
+		}
+	}
+}
